@@ -30,6 +30,7 @@ func init() {
 			{ID: "C18.3", Desc: "the request's Cache-Control is read through all of its field lines (only-if-cached on a second line counts)", Run: func(c *Ctx) { ruleRLIST(c, "C18.3", "Cache-Control") }, MinSites: 1},
 			{ID: "C18.5", Desc: "directive names are case-folded for every letter (ONLY-IF-CACHED)", Run: func(c *Ctx) { ruleC12_1(c); renameRule(c, "C12.1", "C18.5") }, MinSites: 1},
 			{ID: "C18.6", Desc: "under only-if-cached a stored response that needs validation is not served (the decision rows of C02.1)", Run: func(c *Ctx) { ruleC02_1(c); renameRule(c, "C02.1", "C18.6") }, MinSites: 3},
+			{ID: "C18.7", Desc: "the directive collector visits every pair (only-if-cached behind a repeated directive)", Run: func(c *Ctx) { ruleCollectorVisitsEveryPair(c, "C18.7") }, MinSites: 1},
 		},
 	})
 }
